@@ -201,8 +201,12 @@ def check_written_document(w: World, text: str, mt, *, exp_key_map, exp_value_ma
         custom = m.did != hash(m.data)
         if first is None:
             first_of_data.setdefault(m.did, []).append((pos, m))
+        # required only in the unambiguous case (DESIGN.md section 4 C12): default id,
+        # same kind as the first occurrence, and the id group holds one data value only
+        # (different data under one id - e.g. 3 under the explicit id 0 next to the data
+        # 0 - may be written either way as long as it decodes to the tree)
         must_ref = (first is not None and first[1].did == m.did and not custom
-                    and first[1].kind == m.kind)
+                    and first[1].kind == m.kind and len(first_of_data.get(m.did, ())) == 1)
         if e.kind_of_entry == "ref":
             t = nodes[e.ref - 1]
             if not (t.data is m.data or (value_equal(t.data, m.data) and t.did == m.did)):
